@@ -1,10 +1,487 @@
 package main
 
-import "strings"
+import (
+	"bytes"
+	"encoding/json"
+	"fmt"
+	"go/types"
+	"math/big"
+	"os"
+	"os/exec"
+	"path/filepath"
+	"regexp"
+	"strconv"
+	"strings"
+)
 
-// tryGoReplay turns a solver model into a Go test that calls the real function.
-// Implemented for functions whose parameters are ints, bools and strings; others
-// return ok=false and the replay file is the textual obligation record.
+// ReplayInfo is what is needed to call the real function with model values.
+type ReplayInfo struct {
+	PkgName  string
+	PkgDir   string // relative to repo root
+	Func     string // function name (no receiver support yet)
+	Method   bool
+	Params   []string // names
+	Terms    []string // SMT terms
+	Types    []types.Type
+	Results  []string // names bound to the call results
+	Clause   *SExpr   // violated postcondition (nil for panic-freedom obligations)
+	Requires []*SExpr
+	TagTypes map[int]types.Type
+}
+
+// stripQuantified removes quantified assertions so that a solver can return a candidate model.
+func stripQuantified(smt string) string {
+	var out []string
+	for _, l := range strings.Split(smt, "\n") {
+		if strings.HasPrefix(l, "(assert (forall") || strings.HasPrefix(l, "(assert (! (forall") {
+			continue
+		}
+		if strings.HasPrefix(l, "(define-fun str_eq") {
+			// candidate models only: compare lengths and the first 8 bytes
+			out = append(out, "(define-fun str_eq ((a Str) (b Str)) Bool (and (= (slen a) (slen b)) (=> (> (slen a) 0) (= (sat a 0) (sat b 0))) (=> (> (slen a) 1) (= (sat a 1) (sat b 1))) (=> (> (slen a) 2) (= (sat a 2) (sat b 2))) (=> (> (slen a) 3) (= (sat a 3) (sat b 3)))))")
+			continue
+		}
+		out = append(out, l)
+	}
+	return strings.Join(out, "\n")
+}
+
+func runZ3(script string, sec int) string {
+	f, err := os.CreateTemp("", "gvcm*.smt2")
+	if err != nil {
+		return ""
+	}
+	defer os.Remove(f.Name())
+	f.WriteString(script)
+	f.Close()
+	cmd := exec.Command("z3-new", fmt.Sprintf("-T:%d", sec), f.Name())
+	var buf bytes.Buffer
+	cmd.Stdout = &buf
+	cmd.Stderr = &buf
+	cmd.Run()
+	return buf.String()
+}
+
+// getValues asks for the values of terms in a model of script. Returns nil if not sat.
+func getValues(script string, terms []string) []string {
+	if len(terms) == 0 {
+		return nil
+	}
+	s := strings.Replace(script, "(get-model)", "", -1)
+	var b strings.Builder
+	b.WriteString(s)
+	for _, t := range terms {
+		b.WriteString("(get-value (" + t + "))\n")
+	}
+	out := runZ3(b.String(), 15)
+	lines := strings.SplitN(out, "\n", 2)
+	if len(lines) < 2 || strings.TrimSpace(lines[0]) != "sat" {
+		return nil
+	}
+	// each get-value answer is one s-expression ((term value)); split top-level
+	var vals []string
+	rest := lines[1]
+	for len(vals) < len(terms) {
+		rest = strings.TrimLeft(rest, " \n\t")
+		if rest == "" || rest[0] != '(' {
+			return nil
+		}
+		depth, end := 0, -1
+		for i := 0; i < len(rest); i++ {
+			if rest[i] == '(' {
+				depth++
+			} else if rest[i] == ')' {
+				depth--
+				if depth == 0 {
+					end = i
+					break
+				}
+			}
+		}
+		if end < 0 {
+			return nil
+		}
+		ans := rest[:end+1]
+		rest = rest[end+1:]
+		// strip "((term " prefix: value is the last top-level element inside the inner list
+		inner := strings.TrimSpace(ans[1 : len(ans)-1]) // (term value)
+		inner = inner[1 : len(inner)-1]
+		vals = append(vals, lastSexp(inner))
+	}
+	return vals
+}
+
+func lastSexp(s string) string {
+	s = strings.TrimSpace(s)
+	if s == "" {
+		return ""
+	}
+	if s[len(s)-1] != ')' {
+		k := strings.LastIndexAny(s, " \n\t")
+		return s[k+1:]
+	}
+	depth := 0
+	for i := len(s) - 1; i >= 0; i-- {
+		if s[i] == ')' {
+			depth++
+		} else if s[i] == '(' {
+			depth--
+			if depth == 0 {
+				return s[i:]
+			}
+		}
+	}
+	return s
+}
+
+func parseSMTInt(s string) (*big.Int, bool) {
+	s = strings.TrimSpace(s)
+	if n, ok := litInt(s); ok {
+		return n, true
+	}
+	if strings.HasPrefix(s, "(-") {
+		inner := strings.TrimSpace(s[2 : len(s)-1])
+		if n, ok := litInt(inner); ok {
+			return n.Neg(n), true
+		}
+	}
+	return nil, false
+}
+
+var fpRe = regexp.MustCompile(`\(fp #b([01]) #b([01]+) #x([0-9a-fA-F]+)\)`)
+
+func parseSMTFloatBits(s string) (uint64, bool) {
+	s = strings.TrimSpace(s)
+	if m := fpRe.FindStringSubmatch(s); m != nil {
+		sign, _ := strconv.ParseUint(m[1], 2, 64)
+		exp, _ := strconv.ParseUint(m[2], 2, 64)
+		man, _ := strconv.ParseUint(m[3], 16, 64)
+		return sign<<63 | exp<<52 | man, true
+	}
+	switch {
+	case strings.Contains(s, "+zero"):
+		return 0, true
+	case strings.Contains(s, "-zero"):
+		return 1 << 63, true
+	case strings.Contains(s, "+oo"):
+		return 0x7FF0000000000000, true
+	case strings.Contains(s, "-oo"):
+		return 0xFFF0000000000000, true
+	case strings.Contains(s, "NaN"):
+		return 0x7FF8000000000001, true
+	}
+	return 0, false
+}
+
+// goLiteral renders the model value of one parameter as a Go expression.
+func (ri *ReplayInfo) goLiterals(script string) ([]string, bool) {
+	// pass 1: scalar projections
+	var q []string
+	for i, t := range ri.Types {
+		term := ri.Terms[i]
+		switch {
+		case isIntType(t), isBoolType(t), isFloatType(t):
+			q = append(q, term)
+		case isString(t):
+			q = append(q, sx("slen", term))
+		case isInterface(t):
+			q = append(q, sx("vtag", term), sx("vint", term), sx("vbool", term), sx("vfp", term), sx("slen", sx("vstr", term)))
+		default:
+			return nil, false
+		}
+	}
+	vals := getValues(script, q)
+	if vals == nil {
+		return nil, false
+	}
+	// pass 2: string bytes
+	type strReq struct {
+		term string
+		n    int
+	}
+	var reqs []strReq
+	var q2 []string
+	k := 0
+	lens := map[int]int{}
+	for i, t := range ri.Types {
+		term := ri.Terms[i]
+		switch {
+		case isIntType(t), isBoolType(t), isFloatType(t):
+			k++
+		case isString(t):
+			n, ok := parseSMTInt(vals[k])
+			if !ok || !n.IsInt64() || n.Int64() > 4096 {
+				return nil, false
+			}
+			lens[i] = int(n.Int64())
+			reqs = append(reqs, strReq{term, int(n.Int64())})
+			k++
+		case isInterface(t):
+			n, ok := parseSMTInt(vals[k+4])
+			if !ok || !n.IsInt64() || n.Int64() > 4096 {
+				return nil, false
+			}
+			lens[i] = int(n.Int64())
+			reqs = append(reqs, strReq{sx("vstr", term), int(n.Int64())})
+			k += 5
+		}
+	}
+	for _, r := range reqs {
+		q2 = append(q2, sx("slen", r.term))
+		for j := 0; j < r.n; j++ {
+			q2 = append(q2, sx("sat", r.term, fmt.Sprint(j)))
+		}
+	}
+	// one combined query so that all values come from the same model
+	all := getValues(script, append(append([]string{}, q...), q2...))
+	if all == nil {
+		return nil, false
+	}
+	vals = all[:len(q)]
+	bytesVals := all[len(q):]
+	strOf := func(n int) (string, bool) {
+		// consume slen + n bytes from bytesVals
+		if len(bytesVals) < 1 {
+			return "", false
+		}
+		ln, ok := parseSMTInt(bytesVals[0])
+		if !ok || int(ln.Int64()) != n {
+			return "", false // model changed between queries
+		}
+		bs := make([]byte, n)
+		for j := 0; j < n; j++ {
+			b, ok := parseSMTInt(bytesVals[1+j])
+			if !ok {
+				return "", false
+			}
+			bs[j] = byte(b.Int64() & 255)
+		}
+		bytesVals = bytesVals[1+n:]
+		return strconv.Quote(string(bs)), true
+	}
+	var lits []string
+	k = 0
+	for i, t := range ri.Types {
+		ts := types.TypeString(t, func(p *types.Package) string {
+			if p.Name() == ri.PkgName {
+				return ""
+			}
+			return p.Name()
+		})
+		ts = strings.TrimPrefix(ts, ".")
+		switch {
+		case isIntType(t):
+			n, ok := parseSMTInt(vals[k])
+			if !ok {
+				return nil, false
+			}
+			lits = append(lits, fmt.Sprintf("%s(%s)", ts, n.String()))
+			k++
+		case isBoolType(t):
+			lits = append(lits, strings.TrimSpace(vals[k]))
+			k++
+		case isFloatType(t):
+			bits, ok := parseSMTFloatBits(vals[k])
+			if !ok {
+				return nil, false
+			}
+			lits = append(lits, fmt.Sprintf("%s(math.Float64frombits(0x%x))", ts, bits))
+			k++
+		case isString(t):
+			s, ok := strOf(lens[i])
+			if !ok {
+				return nil, false
+			}
+			lits = append(lits, fmt.Sprintf("%s(%s)", ts, s))
+			k++
+		case isInterface(t):
+			tag, ok := parseSMTInt(vals[k])
+			if !ok {
+				return nil, false
+			}
+			s, ok2 := strOf(lens[i])
+			if !ok2 {
+				return nil, false
+			}
+			if tag.Sign() == 0 {
+				lits = append(lits, "nil")
+				k += 5
+				continue
+			}
+			dt := ri.TagTypes[int(tag.Int64())]
+			if dt == nil {
+				return nil, false
+			}
+			dts := types.TypeString(dt, func(p *types.Package) string {
+				if p.Name() == ri.PkgName {
+					return ""
+				}
+				return p.Name()
+			})
+			switch {
+			case isIntType(dt):
+				n, ok := parseSMTInt(vals[k+1])
+				if !ok {
+					return nil, false
+				}
+				lits = append(lits, fmt.Sprintf("any(%s(%s))", dts, n.String()))
+			case isBoolType(dt):
+				lits = append(lits, fmt.Sprintf("any(%s(%s))", dts, strings.TrimSpace(vals[k+2])))
+			case isFloatType(dt):
+				bits, ok := parseSMTFloatBits(vals[k+3])
+				if !ok {
+					return nil, false
+				}
+				lits = append(lits, fmt.Sprintf("any(%s(math.Float64frombits(0x%x)))", dts, bits))
+			case isString(dt):
+				lits = append(lits, fmt.Sprintf("any(%s(%s))", dts, s))
+			default:
+				return nil, false
+			}
+			k += 5
+		}
+	}
+	return lits, true
+}
+
+// goExpr translates a quantifier-free spec expression to Go source.
+func goExpr(e *SExpr) (string, bool) {
+	switch e.Op {
+	case "lit":
+		return e.Lit, true
+	case "str":
+		return strconv.Quote(e.Lit), true
+	case "ident":
+		switch e.Name {
+		case "MaxInt":
+			return "math.MaxInt", true
+		case "MinInt":
+			return "math.MinInt", true
+		case "RuneError":
+			return "utf8.RuneError", true
+		}
+		return e.Name, true
+	case "un":
+		a, ok := goExpr(e.Args[0])
+		return "(" + e.Name + a + ")", ok
+	case "bin":
+		a, ok1 := goExpr(e.Args[0])
+		b, ok2 := goExpr(e.Args[1])
+		if !ok1 || !ok2 {
+			return "", false
+		}
+		switch e.Name {
+		case "==>":
+			return "(!(" + a + ") || (" + b + "))", true
+		case "<==>":
+			return "((" + a + ") == (" + b + "))", true
+		}
+		return "(" + a + " " + e.Name + " " + b + ")", true
+	case "ite":
+		c, ok1 := goExpr(e.Args[0])
+		a, ok2 := goExpr(e.Args[1])
+		b, ok3 := goExpr(e.Args[2])
+		return "verifIte(" + c + ", " + a + ", " + b + ")", ok1 && ok2 && ok3
+	case "field":
+		a, ok := goExpr(e.Args[0])
+		return a + "." + e.Name, ok
+	case "index":
+		a, ok1 := goExpr(e.Args[0])
+		b, ok2 := goExpr(e.Args[1])
+		return a + "[" + b + "]", ok1 && ok2
+	case "slice":
+		a, ok := goExpr(e.Args[0])
+		lo, hi := "", ""
+		if e.Args[1] != nil {
+			var ok1 bool
+			lo, ok1 = goExpr(e.Args[1])
+			ok = ok && ok1
+		}
+		if e.Args[2] != nil {
+			var ok2 bool
+			hi, ok2 = goExpr(e.Args[2])
+			ok = ok && ok2
+		}
+		return a + "[" + lo + ":" + hi + "]", ok
+	case "call":
+		if e.Args[0].Op == "ident" {
+			switch e.Args[0].Name {
+			case "len", "cap":
+				a, ok := goExpr(e.Args[1])
+				return e.Args[0].Name + "(" + a + ")", ok
+			case "old":
+				// parameters are passed by value: old(p) == p for the simple types replayed here
+				return goExpr(e.Args[1])
+			}
+		}
+	}
+	return "", false
+}
+
 func (r *Report) tryGoReplay(g *Group, inputs map[string]string, base string, b *strings.Builder) (string, bool) {
+	ob := g.Fail
+	ri := ob.Replay
+	if ri == nil || ri.Method || ob.SMT == "" {
+		fmt.Fprintf(b, "\nreplay: not attempted (receiver/parameter types outside the replayable subset)\n")
+		return "", false
+	}
+	script := ob.SMT
+	lits, ok := ri.goLiterals(script)
+	if !ok {
+		// candidate model from the quantifier-free relaxation
+		lits, ok = ri.goLiterals(stripQuantified(script))
+		if ok {
+			fmt.Fprintf(b, "\nreplay: inputs come from a candidate model of the quantifier-free relaxation of the VC\n")
+		}
+	}
+	if !ok {
+		fmt.Fprintf(b, "\nreplay: the solvers returned no model (quantified goal or timeout)\n")
+		return "", false
+	}
+	var src strings.Builder
+	fmt.Fprintf(&src, "// gvc-replay pkgdir=%s run=TestVerifReplay\n// Generated by gvc from the counterexample of obligation %s (%s).\n", ri.PkgDir, g.Name, ob.Desc)
+	fmt.Fprintf(&src, "package %s\n\nimport (\n\t\"math\"\n\t\"testing\"\n\t\"unicode/utf8\"\n)\n\nvar _ = math.MaxInt\nvar _ = utf8.RuneError\n\n", ri.PkgName)
+	fmt.Fprintf(&src, "func verifIte[T any](c bool, a, b T) T {\n\tif c {\n\t\treturn a\n\t}\n\treturn b\n}\n\n")
+	fmt.Fprintf(&src, "func TestVerifReplay(t *testing.T) {\n")
+	for i, p := range ri.Params {
+		fmt.Fprintf(&src, "\t%s := %s\n\t_ = %s\n", p, lits[i], p)
+	}
+	call := ri.Func + "(" + strings.Join(ri.Params, ", ") + ")"
+	if len(ri.Results) > 0 {
+		fmt.Fprintf(&src, "\t%s := %s\n", strings.Join(ri.Results, ", "), call)
+		for _, rn := range ri.Results {
+			fmt.Fprintf(&src, "\t_ = %s\n", rn)
+		}
+	} else {
+		fmt.Fprintf(&src, "\t%s\n", call)
+	}
+	expectPanicOnly := ri.Clause == nil
+	if !expectPanicOnly {
+		ge, ok := goExpr(ri.Clause)
+		if !ok {
+			fmt.Fprintf(b, "\nreplay: the violated clause uses quantifiers/spec functions and cannot be evaluated at run time; inputs: %s\n", strings.Join(lits, ", "))
+			return "", false
+		}
+		fmt.Fprintf(&src, "\tif !(%s) {\n\t\tt.Fatalf(\"obligation %s violated: %s\")\n\t}\n", ge, g.Name, strings.ReplaceAll(ri.Clause.String(), "\"", "'"))
+	}
+	fmt.Fprintf(&src, "}\n")
+	gopath := base + "_test.go"
+	os.WriteFile(gopath, []byte(src.String()), 0o644)
+	// run it against the real code
+	dst := filepath.Join(r.repo, ri.PkgDir, "zz_verif_replay_test.go")
+	ov, _ := json.Marshal(map[string]any{"Replace": map[string]string{dst: gopath}})
+	ovPath := base + ".overlay.json"
+	os.WriteFile(ovPath, ov, 0o644)
+	cmd := exec.Command("go", "test", "-overlay", ovPath, "-vet=off", "-count=1", "-timeout", "60s", "-run", "^TestVerifReplay$", "./"+ri.PkgDir)
+	cmd.Dir = r.repo
+	cmd.Env = append(os.Environ(), "GOFLAGS=-mod=mod", "GOPROXY=off", "GOSUMDB=off", "GOTOOLCHAIN=local")
+	out, err := cmd.CombinedOutput()
+	fmt.Fprintf(b, "\nreplay inputs: %s\nreplay test: %s\nreplay output:\n%s\n", strings.Join(lits, ", "), gopath, truncate(string(out), 3000))
+	os.Remove(ovPath)
+	if err != nil && (strings.Contains(string(out), "--- FAIL") || strings.Contains(string(out), "panic:")) {
+		fmt.Fprintf(b, "replay: REPRODUCED on the real code\n")
+		return gopath, true
+	}
+	fmt.Fprintf(b, "replay: not reproduced on the real code with these inputs\n")
 	return "", false
 }
